@@ -275,9 +275,14 @@ fn signal_name(s: i32) -> &'static str {
 
 /// Run the planned workers, at most `par` at a time, and merge what they report.
 pub fn run_workers(spec: &CheckSpec, tier: Tier, seed: u64, plans: Vec<WorkerPlan>, par: usize) -> Out {
+    run_workers_with(spec, tier, seed, plans, par, None)
+}
+
+/// As `run_workers`, optionally with another build of this binary (release profile, sanitizer build).
+pub fn run_workers_with(spec: &CheckSpec, tier: Tier, seed: u64, plans: Vec<WorkerPlan>, par: usize, bin: Option<PathBuf>) -> Out {
     use std::os::unix::process::ExitStatusExt;
-    let exe = std::env::current_exe().expect("current_exe");
-    let base = shm_base();
+    let exe = bin.unwrap_or_else(|| std::env::current_exe().expect("current_exe"));
+    let base = shm_base().join(format!("orch-{}", std::time::SystemTime::now().duration_since(std::time::UNIX_EPOCH).map(|d| d.as_nanos()).unwrap_or(0)));
     let _ = std::fs::create_dir_all(&base);
     let mut total = Out::default();
     let mut pending: Vec<(usize, WorkerPlan)> = plans.into_iter().enumerate().collect();
@@ -342,6 +347,11 @@ pub fn run_workers(spec: &CheckSpec, tier: Tier, seed: u64, plans: Vec<WorkerPla
             if let Some(res) = done {
                 progressed = true;
                 let r = running.swap_remove(i);
+                // a worker that was killed or left in a hurry could not remove its scratch directory
+                let child_scratch = shm_base().parent().map(|p| p.join(format!("bcverif-{}", r.child.id())));
+                if let Some(cs) = child_scratch {
+                    let _ = std::fs::remove_dir_all(cs);
+                }
                 let parsed = std::fs::read(&r.out).ok().and_then(|b| serde_json::from_slice::<Value>(&b).ok());
                 let crumb = std::fs::read_to_string(r.out.with_extension("cur")).unwrap_or_default();
                 let crumb_case: Option<u64> = crumb.lines().next().and_then(|l| l.trim().parse().ok());
@@ -385,6 +395,7 @@ pub fn run_workers(spec: &CheckSpec, tier: Tier, seed: u64, plans: Vec<WorkerPla
         }
     }
     let _ = std::fs::remove_dir_all(&base);
+    let _ = std::fs::remove_dir(shm_base());
     total
 }
 
